@@ -1203,6 +1203,55 @@ def run_real(case) -> CaseResult:
 
                 return CaseResult(sorted(labels), True)
 
+            if case.get('range') and op == 'copy':
+                # server-side copy of a RANGE into an existing file: exactly
+                # that range lands at the given offset, the rest of the
+                # destination stays as it was
+                roff, rlen, doff, dlen = case['range']
+                src, dst = os.path.join(root, 'src'), \
+                    os.path.join(root, 'dst')
+                content, _ = make_real_file(src, dict(fi, pages=None))
+                pre = bytes([0xEE]) * dlen
+
+                with open(dst, 'wb') as f:
+                    f.write(pre)
+
+                roff = min(roff, len(content))
+                part = content[roff:roff + rlen]
+                want = bytearray(pre)
+
+                if len(want) < doff:
+                    want += bytes(doff - len(want))
+
+                want[doff:doff + len(part)] = part
+                labels.add('copy-range')
+
+                if roff + rlen < len(content):
+                    labels.add('copy-range:ends-before-eof')
+
+                async def ranged():
+                    # (a destination given by name is opened afresh, 'wb';
+                    # an open file keeps what it has)
+                    async with sftp.open('dst', 'r+b') as dstf:
+                        await sftp.remote_copy('src', dstf, roff, rlen, doff)
+
+                try:
+                    pair.h.run(ranged())
+                except DOCUMENTED as exc:
+                    raise Violation('spurious-error', 'remote_copy raised '
+                                    '%r on a healthy server' % (exc,),
+                                    'spurious-error:real-rcopy') from None
+                except memwire.Stuck:
+                    raise Violation('hang', 'remote_copy never completed',
+                                    'hang:real-rcopy') from None
+
+                check_bytes(read_local(dst), bytes(want),
+                            'real-server remote_copy(src_offset=%d, '
+                            'src_length=%d, dst_offset=%d) into a %d-byte '
+                            'file' % (roff, rlen, doff, dlen),
+                            'data-mismatch:real-rcopy', None)
+                return CaseResult(sorted(labels), True)
+
             if op == 'get':
                 src, dst = os.path.join(root, 'src'), \
                     os.path.join(local, 'dst')
@@ -1378,6 +1427,18 @@ def real_strategy(tier: str):
                     [262143, 262144, 262145, 524288, 524289, 600000]))
 
         big_layout = len(fi.get('pages') or []) >= 100
+        rng = None
+
+        if op == 'copy' and not sparse_file and draw(st.integers(0, 1)):
+            size = fi['size']
+            rng = [draw(pick([0, 1, size // 3, max(size - 1, 0)])),
+                   draw(pick([1, 7, max(size // 4, 1), 262144, 262145])),
+                   draw(pick([0, 5, 1000])), draw(pick([0, 10, 5000]))]
+
+        if rng is not None:
+            return {'op': op, 'version': version, 'short': [0], 'bs': bs,
+                    'mr': mr, 'sparse': False, 'file': fi, 'linked': None,
+                    'ranges_batch': None, 'range': rng}
 
         return {'op': op, 'version': version, 'short': short, 'bs': bs,
                 'mr': mr, 'sparse': True if big_layout else
@@ -1717,7 +1778,8 @@ FAMILIES = [
            budget={'quick': 480, 'thorough': 6000},
            required={'all': ['op-get', 'op-put', 'op-copy', 'op-file',
                              'sparse-holes', 'short-read-continued',
-                             'copy-data>256k', 'v3', 'v4', 'v5', 'v6',
+                             'copy-data>256k', 'copy-range:ends-before-eof',
+                             'v3', 'v4', 'v5', 'v6',
                              'ranges-batches>=3',
                              'ranges-batches>=3:real-batch-size',
                              'linked:recurse', 'linked:mglob']},
